@@ -2,6 +2,7 @@ package main
 
 import (
 	"fmt"
+	"go/ast"
 	"go/token"
 	"go/types"
 	"strings"
@@ -75,6 +76,23 @@ func (e *Exec) execInstr(f *Frame, b *ssa.BasicBlock, ins ssa.Instruction, st *S
 	name := func(v ssa.Value) string { return f.prefix + v.Name() }
 	switch x := ins.(type) {
 	case *ssa.DebugRef:
+		// source-level names of local variables (root function only), for use in contracts
+		if f == e.rootFrame && x.IsAddr {
+			if id, ok := x.Expr.(*ast.Ident); ok && id.Name != "_" {
+				if v, ok := f.vals[x.X]; ok {
+					e.localAddrs[id.Name] = v
+				}
+			}
+		}
+		if f == e.rootFrame && !x.IsAddr {
+			if id, ok := x.Expr.(*ast.Ident); ok && id.Name != "_" {
+				if v, ok := f.vals[x.X]; ok {
+					e.localNames[id.Name] = v
+				} else if c, ok := x.X.(*ssa.Const); ok {
+					e.localNames[id.Name] = e.constVal(c)
+				}
+			}
+		}
 	case *ssa.Alloc:
 		el := deref(x.Type())
 		r := e.freshRef(st, x.Name())
@@ -88,6 +106,7 @@ func (e *Exec) execInstr(f *Frame, b *ssa.BasicBlock, ins ssa.Instruction, st *S
 			e.setComp(st, n, so, Store(h, r, e.reg.zero(el)))
 		}
 		f.vals[x] = Val{T: x.Type(), Term: r}
+		e.refTyped(f.vals[x])
 	case *ssa.FieldAddr:
 		p := e.val(f, x.X)
 		a := e.addrOf(p)
@@ -193,6 +212,7 @@ func (e *Exec) execInstr(f *Frame, b *ssa.BasicBlock, ins ssa.Instruction, st *S
 		f.vals[x] = Val{T: x.Type(), Term: bx}
 		if isRefLike(x.X.Type()) && isAtom(bx) {
 			e.boxOf[bx] = e.asTerm(v)
+			e.boxType[bx] = x.X.Type()
 		}
 		e.boxFacts(x.X.Type(), e.asTerm(v))
 	case *ssa.ChangeInterface:
@@ -223,6 +243,7 @@ func (e *Exec) execInstr(f *Frame, b *ssa.BasicBlock, ins ssa.Instruction, st *S
 		l := e.comp(st, ln, ls)
 		e.setComp(st, ln, ls, Store(l, r, "0"))
 		f.vals[x] = Val{T: x.Type(), Term: r}
+		e.refTyped(f.vals[x])
 	case *ssa.MakeSlice:
 		sl := unalias(x.Type()).Underlying().(*types.Slice)
 		r := e.freshRef(st, "arr")
@@ -705,7 +726,7 @@ func (e *Exec) backEdge(f *Frame, li *loopInfo, latch *ssa.BasicBlock, st *State
 	}
 	e.loopInvariant(f, li, st, cond, "inv-preserved")
 	for _, phi := range li.accum {
-		e.oblige("inv-preserved", fmt.Sprintf("loop%d.accum.%s", li.ordinal, phi.Comment), e.rootProps(), cond, e.accumInv(f.vals[phi].Term, li),
+		e.oblige("inv-preserved", fmt.Sprintf("loop%d.accum.%s", li.ordinal, phi.Comment), e.rootProps(), cond, e.accumInvAt(f.vals[phi].Term, li.accumPre[phi]),
 			"automatic accumulator invariant of "+phi.Comment, "accumulator slice backed by memory allocated in the loop")
 	}
 	for phi, v := range saved {
